@@ -2056,12 +2056,14 @@ class Data(BaseCartesianData):
             y = np.log10(y)
 
         # By default fast-histogram drops values that are exactly xmax, so we
-        # increase xmax very slightly to make sure that this doesn't happen, to
-        # be consistent with np.histogram.
+        # move such values just inside the range to make sure that this doesn't
+        # happen, to be consistent with np.histogram. Note that stretching the
+        # range instead would shift the interior bin edges (and np.spacing is
+        # negative for negative values).
         if ndim >= 1:
-            xmax += 10 * np.spacing(xmax)
+            x = np.where(x == xmax, np.nextafter(xmax, xmin), x)
         if ndim >= 2:
-            ymax += 10 * np.spacing(ymax)
+            y = np.where(y == ymax, np.nextafter(ymax, ymin), y)
 
         if ndim == 1:
             range = (xmin, xmax)
